@@ -380,7 +380,7 @@ def main():
     for kind, lst in (('mutants', M), ('benign', G)):
         d = os.path.join('/verif', kind)
         for f in os.listdir(d):
-            if f.endswith('.patch') and not f.startswith('agent'):
+            if f.endswith('.patch') and not f.startswith('agent') and not f.startswith('own-'):
                 os.remove(os.path.join(d, f))
         for m in lst:
             src = open(os.path.join('/repo', m['file'])).read()
@@ -451,6 +451,10 @@ def main():
             if os.path.exists(os.path.join('/verif/benign', f_)):
                 ext.append({'name': 'agent4-%s-r%d' % (k_, i_), 'patch': f_, 'properties': list(ALLP),
                             'note': (notes.get('r%d' % i_, {}).get('what') or '')[:200], 'origin': 'sub-agent'})
+    # hand-made multi-file variants kept as patches (benign/own-*.patch): checked against every property
+    for f_ in sorted(os.listdir('/verif/benign')):
+        if f_.startswith('own-') and f_.endswith('.patch'):
+            ext.append({'name': f_[:-6], 'patch': f_, 'properties': list(ALLP), 'note': 'hand-made variant', 'origin': 'own'})
     idx = {'mutants': [{k: v for k, v in m.items() if k not in ('pairs', 'extra_edits', 'all_occurrences')} for m in M],
            'benign': [{k: v for k, v in m.items() if k not in ('pairs', 'extra_edits')} for m in G] + ext}
     json.dump(idx, open('/verif/mutants/index.json', 'w'), indent=1)
